@@ -1,4 +1,4 @@
-(* MODEL: session_model *)
+(* MODEL: registers_model (coq/extract/Extract_Registers.v, shared with C05) *)
 (* cases:  <id> SESS <regs 0|1> <skel>|<skel>|...
      out:  one "<outcome>:<root numReg>:<flags>:<probes>" per input (see skelio.ml)  *)
 let () = iter_lines (fun line ->
